@@ -180,9 +180,10 @@ PROPS = {
         level_note="Trusted: pebble's strict MemFS as the durability model; the model's prefix states.",
     ),
     "C08": dict(
-        pkg="c08", level="exploration",
+        pkg="c08", level="exploration", journal_cases=True,
         tests=[T("TestC08", Q(2000, timeout=400), Q(8000, timeout=1500, shards=16, shrinktime="60s")),
-               T("TestC08Big", Q(8, timeout=400, shrinktime="20s"), Q(40, timeout=1500, shards=6, shrinktime="60s"))],
+               T("TestC08Big", Q(8, timeout=400, shrinktime="20s"), Q(40, timeout=1500, shards=6, shrinktime="60s")),
+               T("TestC08Cluster", Q(6, timeout=400, shards=4, shrinktime="20s"), Q(40, timeout=1500, shards=8, shrinktime="60s"))],
         rule="Generated: saver history (0-6 Update calls), PrepareSnapshot, 0-3 further Update calls, SaveSnapshot; a receiver with its own unrelated history (0-4 calls, synced or not); recovery with saver and "
              "receiver formats drawn independently (snapshot/checkpoint, cross-format); one of: plain install, stop signal after k writer calls during save, stop signal after k reader calls during recover, "
              "crash at EVERY file-system operation boundary inside RecoverFromSnapshot under two fault models - power loss (everything unsynced is dropped) and process death (everything done before the operation is kept, nothing after it happens) - (crashfs, counted as separate evaluations), a lazy range sequence obtained before the install and consumed after it, "
@@ -190,7 +191,7 @@ PROPS = {
              "stopped save => ErrSnapshotStopped and saver intact; stopped install => receiver == its pre-install model, also after reopen; crash inside install => exactly the installed state or a prefix (>= last sync) "
              "of the receiver's own log; overlapping reads: old state, new state or clean error, never a panic. Non-trivial iff writes between prepare and save AND (cross-format or interrupted), or a reader spanning the swap, "
              "or a crash point inside the install. TestC08Big: the saver holds 18-40 MiB (more than the 16 MiB the sstable-stream format ships in one piece; several files for the checkpoint format) and Update calls between prepare and save overwrite the "
-             "first / a middle / the last key, delete and add keys and move both indices; same oracle (non-trivial always). Distinct = sha256(case JSON [+ crash point]).",
+             "first / a middle / the last key, delete and add keys and move both indices; same oracle (non-trivial always). Distinct = sha256(case JSON [+ crash point]). TestC08Cluster: a real 3-node regatta cluster whose nodes use the snapshot formats of the process shard (mixed and uniform), tables that snapshot every 10 entries and keep 2 log entries; a node is taken down, 25-60 generated writes (puts of 0 B - 600 KB, deletes, range deletes, non-idempotent transactions) follow, the node returns and can only catch up by a snapshot streamed by the raft library from a peer; a linearizable read on it == model, after the writes stopped every node's own copy == model and all applied indices agree; non-trivial iff a node caught up with fewer apply calls than entries it missed.",
         assumptions=FSM_ASSUME + ["dragonboat documents that Lookup may run concurrently with RecoverFromSnapshot",
                                   "while KNOWN_FINDINGS lists the read-across-install finding, racing readers are not executed (counted as excluded) because they panic or hang inside pebble in schedule-dependent ways"],
         technique="property-based testing: snapshot round trip against a model, fault injection (stop signals, crash-point enumeration inside the install), deterministic and racing overlapping readers",
